@@ -149,7 +149,11 @@ def sub_mutation(inp):
             )  # fmt: skip
         return 'illformed' if k == 'syntax' else 'illformed-preempted'
     if k == 'ast':
-        # cheap sanity: what was accepted prints and parses back to itself
+        # cheap sanity: what was accepted prints and parses back to itself. Not judged when the accepted
+        # reading uses a keyword as a name (the contextual lexer allows `x < forall + 0`; the grammar gives
+        # keywords priority over names, so such texts are outside the documented language)
+        if _keyword_named(r):
+            return 'accepted-keyword-as-name'
         t2 = str(r)
         k2, r2 = lib.outcome(kind if kind != 'condition' else 'predicate', t2)
         if kind == 'expression':
@@ -160,6 +164,25 @@ def sub_mutation(inp):
     if k in ('other', 'recursion'):
         raise Violation('mutation', f'crash:{core.exc_sig(r)}', inp, f'{type(r).__name__}: {str(r)[:300]}\ntext: {text!r}')
     return 'derivable-' + k
+
+
+def _keyword_named(a):
+    for n in astx.preorder(a):
+        c = astx.cname(n)
+        names = []
+        if c == 'HplFieldAccess':
+            names.append(n.field)
+        elif c == 'HplVarReference':
+            names.append(n.token[1:])
+        elif c == 'HplQuantifier':
+            names.append(n.variable)
+        elif c == 'HplSimpleEvent':
+            names += [n.name, n.alias or '']
+        elif c == 'HplFunctionCall':
+            names.append(n.function.name)
+        if any(str.__str__(x) in mast.KEYWORDS for x in names):
+            return True
+    return False
 
 
 def sub_fusion(inp):
